@@ -51,7 +51,7 @@ def wellcond(rng, n, p, pivot=False):
 
 def c07(rng, tier):
     a = A(); U = a.UTPM
-    DPs = [(1, 1), (3, 2)] if tier == 'quick' else [(1, 1), (2, 1), (4, 2), (5, 3)]
+    DPs = [(1, 1), (3, 2), (6, 1)] if tier == 'quick' else [(1, 1), (2, 1), (4, 2), (5, 3), (8, 1)]
     for (D, P) in DPs:
         # ---- dot: every rank combination and operand kind
         rankshapes = [((3,), (3,)), ((2, 3), (3,)), ((3,), (3, 2)), ((2, 3), (3, 2)), ((2, 2, 3), (3,)), ((2, 3), (2, 3, 2)), ((2, 2, 3), (3, 2))]
@@ -157,7 +157,7 @@ def diagpoly(s):
 def c08(rng, tier):
     a = A(); U = a.UTPM; import scipy.linalg
     T = PA.transpose
-    DPs = [(1, 1), (3, 2)] if tier == 'quick' else [(1, 1), (2, 1), (4, 2), (6, 2)]
+    DPs = [(1, 1), (3, 2), (5, 1)] if tier == 'quick' else [(1, 1), (2, 1), (4, 2), (6, 2)]
     for (D, P) in DPs:
         # ---------------- QR (reduced): square, tall, wide
         for (m, n) in ((1, 1), (2, 2), (3, 3), (4, 2), (3, 2), (2, 4)):
